@@ -101,6 +101,15 @@ def _batch(run, prog, cls, method, original):
         if nxt is not None and nxt[0] == "res" and nxt[2] == f"self.{lf}":
             carried = (name, init, nxt)
     if carried is None:
+        # the losses along the chain may be kept in a container the walk fills (`trajectory.append(loss)` ...
+        # `before, after = trajectory[-2:]`) instead of a variable: that bookkeeping is not followed -- no verdict
+        filled = {ev.recv for ev, _ in walk(L.body) if isinstance(ev, ir.Mut) and ev.method in ("append", "insert", "extend", "appendleft")}
+        for ev, _ in walk(L.body):
+            v = getattr(ev, "value", None)
+            if isinstance(ev, ir.SubStore) and v is not None and any(
+                    t[0] in ("sub", "tget") and t[1] in filled for t in ir.subterms(v)):
+                raise AnalysisError(f"{fq}: the losses along the chain are kept in a container filled during the walk "
+                                    f"({ir.show_nl(v)[:100]}); this bookkeeping is not decided")
         run.fail("TELESCOPE", f"{method}.carry", W(L.line), fq, "no loop-carried loss",
                  "the loss after revealing a feature is not carried over as the loss before the next one")
         return
@@ -419,6 +428,13 @@ def _interval(run, prog, cls, bs):
                 bad = bad or "the non-scheduled path rewrites the importance values"
             elif not rets or ir.assume(rets[-1].value, list(p.guards)) != ("field0", "importance_values"):
                 v = ir.assume(rets[-1].value, list(p.guards)) if rets else None
+                raw = rets[-1].value if rets else None
+                if raw is not None and raw[0] == "gate" and ("field0", "importance_values") in (raw[2], raw[3]) and \
+                        not (v is not None and v[0] == "gate"):
+                    # one common `return self.importance_values` after a conditional recomputation: which arm this path
+                    # takes is not decided by matching the path's tests against the selection's condition
+                    raise AnalysisError(f"{fq}: the value returned on the non-scheduled path is {ir.show_nl(v)[:100] if v else None}; "
+                                        f"whether it is the stored value is not decided")
                 if not (v is not None and v[0] == "gate"):
                     bad = bad or "the non-scheduled path does not return the stored importance values"
     run.check(bad is None and n_early >= 1 and n_rec >= 1, "SCHEDULE", "interval.schedule", W(s.fn.lineno), fq,
